@@ -68,6 +68,24 @@ def check(ck):
                        "socket exists yet) the cached HTTPConnection stays in its broken state and every later call fails" % [dump(b.test) for b in guards],
                        q.loc(fs, closes[0]))
 
+    # close() of a package transport really closes: an override must reach the base close on every normal path
+    from vlib.flow import postdominators, NORMAL
+    for ci in prog.classes.values():
+        if ci.module != "jsonrpc" or "close" not in ci.methods:
+            continue
+        is_transport = any("Transport" in b for b in ci.bases) or "Transport" in ci.name
+        if not is_transport:
+            continue
+        fcl = ci.methods["close"]
+        gcl = cfg_of(fcl)
+        base_calls = [n for n in gcl.live_nodes() for c in node_calls(n) if call_name(c) == "close" and dump(c.func.value) != "self"
+                      and ("Transport" in dump(c.func.value) or "super" in dump(c.func.value))]
+        pdc = postdominators(gcl, [gcl.return_exit.id], NORMAL)
+        okk = any(n.id in pdc[gcl.entry.id] for n in base_calls)
+        ck.require(okk, "C19.1", "%s: the override of close() always reaches the base close" % q.fn(fcl), "base close post-dominates the entry",
+                   "%s.close() does not call the inherited close() on every path: after a fault single_request's handler `closes` nothing, the cached "
+                   "connection keeps its broken state and every later call fails" % ci.name, q.loc(fcl, fcl.node))
+
     # ---- C19.2 only 200 is parsed ---------------------------------------------------------------------
     rets = [n for n in g.live_nodes() if n.kind == "return" and n.ast is not None and n.ast.value is not None]
     ck.require(len(rets) == 1, "C19.2", "%s: one value-returning exit" % q.fn(fs), "single return", "found %d value returns" % len(rets), q.loc(fs, fs.node))
